@@ -267,6 +267,15 @@ func checkC03() fw.Check {
 							res, err := runEngine(context.Background(), par, d, p)
 							ev := d.Snapshot()
 							checkShape(c, fmt.Sprintf("%s rep %d", id, k), par, p, ev, res, err)
+							if par && err == nil {
+								// the expected length is computed from the replies the engine took; a run that stops listening
+								// early takes fewer. Every reply that was available before the end of the listening window
+								// (timeout + probes x pause) must have been taken.
+								n := int(p.last) - int(p.first) + 1
+								if un := d.Unused(p.timeout + time.Duration(n)*p.delay - time.Microsecond); len(un) > 0 {
+									c.Violate("C03", "reply-never-taken/engine-parallel", fmt.Sprintf("%s rep %d: %d reply(ies) available before the end of the listening window were never taken by the engine (first: ttl %d dest=%v due at %v)", id, k, len(un), un[0].TTL, un[0].Dest, un[0].At), ev)
+								}
+							}
 							if k == 0 {
 								c.Sample(map[string]any{"case": id, "script_replies": len(script), "result": fmtProbes(res)})
 							}
@@ -320,6 +329,19 @@ func checkC03() fw.Check {
 												return e.spec.Timeout + e.spec.Delay
 											}
 											return 4 * time.Millisecond
+										}
+									}
+									if di == 2 && dist > 0 {
+										// the lowest TTL the destination answers is answered by a router first (a middlebox that
+										// expires the probe and still forwards it), 2 ms ahead of the destination: for the parallel
+										// engines the destination's answer takes the entry over and the list ends there
+										m.extra = func(e *simEnv, p *refmatch.Probe) {
+											if p.TTL != dist {
+												return
+											}
+											if b := e.hopReply(p, &hopSpec{addr: routerAddr(v.V6, 2, dist)}); b != nil {
+												e.inject(b, "genuine-hop", p, oddUS(2*time.Millisecond))
+											}
 										}
 									}
 									last := w.last
